@@ -119,32 +119,42 @@ RULE = ('frames of every length 0-512 x {random, all-equal, ramp, alternating, n
         '2/3/126/127/128/129/254/255, literal tails of 125-131 after a run, frames whose RLE length equals their slot '
         'count} x encoder capacities {0..20, encoded length -2..+2, 512, 1310}; decoder on every truncation of valid '
         'encodings + random bytes x start channels around 0/511/512 x receiver buffer {unallocated, short, full}; '
-        'per protocol (ShowNet, SandNet, ESP Net, Pathport) real-node send->receive over all addresses, same and '
-        'different receiver address; non-trivial = complete encode / whole decode / datagram handled; '
+        'per protocol (ShowNet, SandNet, ESP Net, Pathport, Art-Net, E1.31 rev 3 and rev 2) real-node send->receive '
+        'over the address space (universe/net/sub-net/port, priorities, sequence numbers incl. wrap, source names), '
+        'same and different receiver address; non-trivial = complete encode / whole decode / datagram handled; '
         'distinct = distinct model output line')
 ASSUMPTIONS = ['frames have at most 512 slots (DmxBuffer invariant)',
                'UDP delivery is the identity on datagrams (sendto/recvfrom interposed at link time)',
                'little-endian x86-64 host (HostToLittleEndian is the identity)',
                'encoded input to Decode shorter than 2^24 bytes (destination_index is an int in the C++)',
+               'receivers have one registered handler / output port and no other source tracked yet '
+               '(source arbitration and merging are C08)',
                'operator new does not fail']
 TRUSTED = ['modelled rather than verified: RunLengthEncoder::Encode/Decode, DmxBuffer::Set/SetRange/SetRangeToValue/'
            'Get(channel), ShowNetNode::BuildCompressedPacket/HandlePacket/HandleCompressedPacket (size check as '
            'intended, see C06), SandNetNode::SendUncompressedDMX/SocketReady/HandleDMX, EspNetNode::SendEspData/'
-           'SocketReady/HandleData(raw), PathportNode::SendDMX/SocketReady/HandleDmxData; one registered handler per '
-           'receiver; wire constants and struct offsets regenerated into Gen.v',
-           'NOT covered by model or harness: Art-Net and E1.31 (both revisions) send/receive paths']
+           'SocketReady/HandleData(raw), PathportNode::SendDMX/SocketReady/HandleDmxData, ArtNetNodeImpl::SendDMX/'
+           'HandlePacket/HandleDataPacket/UpdatePortFromSource(first source), E131Node::SendDMXWithSequenceOffset + '
+           'PDU/RootPDU/E131PDU/DMPPDU Pack + PreamblePacker, IncomingUDPTransport::Receive + BaseInflator walk + '
+           'Root/E131/E131Rev2/DMP header decoders + DMPE131Inflator::HandlePDUData/TrackSourceIfRequired(first source); '
+           'wire constants and struct offsets regenerated into Gen.v',
+           'E1.31 receive model covers datagrams with one PDU per block (what OLA sends); blocks with several PDUs and '
+           'Art-Net opcodes other than ArtDmx are reported as unmodelled, never fed by the generator']
 SPEC_KEYS = ['lossless', 'clean', 'spec', 'handled', 'ret']
+PROC_TIMEOUT = 1800
 INTERNAL_KEYS = []
-LEVEL_TEXT = ('Coq theorems, for all frames <= 512 slots and all capacities, about an executable model of '
-              'RunLengthEncoder::Encode/Decode + DmxBuffer::SetRange/SetRangeToValue (after fixes 01/02): Encode never '
-              'writes beyond the capacity, returns false exactly when slots were left out, and the bytes written decode '
-              '(real Decode loop, any start channel, any receiver buffer) to the encoded slots with all other slots '
-              'untouched.  PARTIAL: the per-protocol send->receive clause is NOT proved: ShowNet, SandNet, ESP Net and '
-              'Pathport are modelled (packet build + receive parse) and checked differentially on real node objects '
-              'against the model and the property\'s expected buffer; Art-Net and E1.31 (both revisions) are not covered.')
+LEVEL_TEXT = ('Coq theorems, for all frames of 1-512 slots and all addresses, about executable models of the send and '
+              'receive code of every DMX-over-network protocol OLA both sends and receives: c07_P_roundtrip for ShowNet '
+              '(RLE path and raw-when-lengths-collide), SandNet, ESP Net, Pathport, Art-Net (even-length padding) and '
+              'E1.31 revisions 3 and 2: receive(build f) = the property\'s expected buffer over any old receiver '
+              'buffer; plus RunLengthEncoder lossless / bounded / false-iff-truncated / count bytes in 1..127 for all '
+              'frames and capacities.  The models are tied to the C++ (real node objects, ASan/UBSan, datagram bytes '
+              'compared) by a differential correspondence check; receivers are modelled with one handler and no '
+              'previously tracked source.')
 LEVEL_NOTE = ('Trusted: Coq kernel, extraction (ExtrOcamlBasic), OCaml/C++ glue incl. the sendto/recvfrom interposers, '
               'generator coverage of the correspondence; model = code is validated by differential testing, not proved; '
-              'receivers are modelled with a single registered handler; ShowNet receive size check modelled as intended.')
+              'ShowNet receive size check modelled as intended; E1.31 receive model restricted to one PDU per block; '
+              'IP/UDP delivery assumed to be the identity on datagrams.')
 TECHNIQUE = 'Coq proof on hand-written executable model + extracted-model/implementation differential correspondence'
 DESIGN_REF = 'DESIGN.md §4 C07'
 
@@ -301,6 +311,21 @@ def gen_cases(rng, tier):
         hu = u if rng.random() < 0.85 else (u + rng.choice([1, 127])) % 128
         yield 'pp %d %d %s %d %d %s' % (u, hu, olds(rng, len(f)), rng.choice([0, 1, 0x28000fff, 0xffffffff, rng.randrange(1 << 32)]),
                                         rng.choice([0, 1, 65535, rng.randrange(65536)]), hx(f))
+        # Art-Net: net / sub-net / universe / port, receiver on the same or another universe
+        net, sub, uni = rng.choice([0, 1, 127, 128, rng.randrange(128)]), rng.randrange(16), rng.randrange(16)
+        huni = uni if rng.random() < 0.85 else (uni + 1) % 16
+        yield 'an %d %d %d %d %d %s %d %s' % (net, sub, uni, rng.randrange(4), huni, olds(rng, len(f)),
+                                              rng.choice([0, 0, 1, 2, 255, 256]), hx(f))
+        # E1.31, both revisions
+        for rev2 in (0, 1):
+            u = rng.choice([1, 2, 255, 256, 63999, 65534, rng.randrange(1, 65535), rng.randrange(1, 65535)])
+            if rng.random() < 0.03:
+                u = rng.choice([0, 65535])
+            hu = u if rng.random() < 0.85 else (u % 65534) + 1
+            yield 'e1 %d %d %d %s %d %d %d %s %s' % (rev2, u, hu, olds(rng, len(f)), rng.choice([0, 0, 1, 2, 255, 256]),
+                                                     rng.choice([100, 100, 100, 0, 1, 199, 200, 201, 255]),
+                                                     1 if rng.random() < 0.1 else 0,
+                                                     rng.choice(['-', hx(b'OLA Server'), hx(b'x' * 31), hx(b'y' * 32), hx(b'z' * 70)]), hx(f))
     if not quick:
         # all addresses of the small address spaces
         f = [1, 2, 3, 3, 3, 9]
@@ -312,6 +337,14 @@ def gen_cases(rng, tier):
         for u in range(256):
             yield 'es %d %d none %s' % (u, u, hx(f))
             yield 'sa %d %d 0 %d %d none %s' % (u, 255 - u, u, 255 - u, hx(f))
+        for net in (0, 5, 127):
+            for sub in range(16):
+                for uni in range(16):
+                    yield 'an %d %d %d %d %d none 0 %s' % (net, sub, uni, (sub + uni) % 4, uni, hx(f))
+        for net in range(128):
+            yield 'an %d 3 4 1 4 none 1 %s' % (net, hx(f + [7]))
+        for u in list(range(1, 300)) + list(range(65000, 65535)) + [rng.randrange(1, 65535) for _ in range(500)]:
+            yield 'e1 %d %d %d none 0 100 0 %s %s' % (u & 1, u, u, hx(b'OLA'), hx(f))
 
 
 def nontrivial(payload, md):
